@@ -17,6 +17,11 @@ TEXT = {
         "note": _NOTE + "byte-level MessagePack framing is parsed by the harness; one known finding (nested placeholders); one fix: commit (exact number text).",
         "technique": "Coq proof over an item-tree Gallina model of the MessagePack codec + correspondence by vm_compute + implementation-side never-narrower oracle",
     },
+    "C17": {
+        "level": "The five decoders (JSON value, JSON type, JSON ImpliedType, MessagePack ImpliedType, MessagePack value) are modelled on token / item trees, including what the msgpack library's typed readers accept and the stream-wise reading of refinement bodies. Theorems: MessagePack ImpliedType and the refinement replay never panic, for every input; foreign and broken items are refused. Hostile and mutated inputs are decoded by the implementation in an isolated worker process (crash, allocation volume) and in process (panic, well-formedness, conformance to the requested type); every input that still parses is decoded by the model too, compared outcome by outcome, and the safety predicate is evaluated on the model.",
+        "note": _NOTE + "memory, stack and process death are decided by the worker process only (partial); six fix: commits.",
+        "technique": "Coq proof over token/item-tree Gallina models of the decoders + model-side safety evaluation and correspondence by vm_compute + isolated-worker crash/allocation oracle",
+    },
     "C18": {
         "level": "Number decoding into every Go numeric type (per-width range checks, unsigned wholeness, float64 and float32 narrowing with subnormals and overflow, big.Int/big.Float) and re-encoding are modelled in Gallina on the bit-exact big.Float model. Theorems: an exact integer conversion yields that very number (all numbers), signed decoding succeeds only for whole in-range numbers and stores that number, every Go integer of every width round-trips. All boundary numbers x 14 targets are compared with the implementation; a reflect-based Go type family is round-tripped by the oracle.",
         "note": _NOTE + "structs / slices / maps / pointers: oracle only (partial).",
